@@ -321,35 +321,46 @@ def rule_window(ctx):
     ctx.require(f.params[:3] == ["self", "idx", "dependent_dict"], "get_window_val: parameters changed: %s" % f.params)
     F = Facts(f)
     n = 0
-    for st in statements(f.node):
-        if isinstance(st, ast.Assign) and isinstance(st.targets[0], ast.Subscript) and isinstance(st.value, ast.Subscript) and \
-                isinstance(st.value.value, ast.Subscript) and dotted(st.value.value.value) == "dependent_dict":
+    # every read of the window's factor (through local aliases): dependent_dict[f.name][INDEX], stored under KEY
+    for st in F.stmts:
+        if isinstance(st, (ast.For, ast.While, ast.If, ast.With, ast.Try)):
+            continue
+        for x in ast.walk(st):
+            if not (isinstance(x, ast.Subscript) and isinstance(x.ctx, ast.Load)):
+                continue
+            nf = str(F.at(st, x))
+            if not (nf.startswith("dependent_dict[") and nf.count("][") == 1):
+                continue
             n += 1
-            env = Env()
-            key = _sym(st.targets[0].slice, env)
-            idx = _sym(st.value.slice, env)
-            ctx.check(idx - key == Poly.atom("idx"), R, f, "entry %s" % ast.unparse(st),
-                      "the entry under key -k is the value k trials before the current one", "window entry `%s`: key %s is filled from index %s (expected idx + key)" % (
-                          ast.unparse(st), key, idx), st)
-            fac = ast.unparse(st.value.value.slice)
+            fac = nf[len("dependent_dict["):nf.index("][")]
             ctx.check(fac == "f.name", R, f, "factor %s" % fac, "read from the window's own factor", "window entry reads `%s`" % fac, st, trivial=True)
-            loop = [l for l in statements(f.node) if isinstance(l, ast.For) and any(st is x for x in ast.walk(l)) and isinstance(l.target, ast.Name)
-                    and l.target.id in [x.id for x in ast.walk(st.targets[0].slice) if isinstance(x, ast.Name)]]
-            ctx.check(len(loop) == 1 and ast.unparse(loop[0].iter) in ("range(self.width)", "range(0, self.width)"), R, f, "width", "width entries per window",
-                      "the window loop is `%s`" % (ast.unparse(loop[0].iter) if loop else None), st)
-    # the same filling written as a dict comprehension {KEY: dependent_dict[f.name][IDX] for k in range(self.width)}
-    for dc in [x for x in ast.walk(f.node) if isinstance(x, ast.DictComp)]:
-        v = dc.value
-        if isinstance(v, ast.Subscript) and isinstance(v.value, ast.Subscript) and dotted(v.value.value) == "dependent_dict" and len(dc.generators) == 1:
-            n += 1
+            # the key it is stored under: target subscript of the assignment, or the key of the enclosing dict comprehension
+            dcs = [d for d in ast.walk(st) if isinstance(d, ast.DictComp) and any(y is x for y in ast.walk(d.value))]
+            if dcs:
+                keyn, gens = dcs[0].key, dcs[0].generators
+                rng = ast.unparse(gens[0].iter) if len(gens) == 1 and not gens[0].ifs else "?"
+            elif isinstance(st, ast.Assign) and isinstance(st.targets[0], ast.Subscript):
+                keyn = st.targets[0].slice
+                loop = [l for l in F.stmts if isinstance(l, ast.For) and any(st is y for y in ast.walk(l)) and isinstance(l.target, ast.Name)
+                        and l.target.id in [y.id for y in ast.walk(keyn) if isinstance(y, ast.Name)]]
+                rng = ast.unparse(loop[0].iter) if len(loop) == 1 else "?"
+            else:
+                ctx.bad(R, f, "entry %s" % ast.unparse(st)[:60], "window read `%s` is not stored under a key of the window dictionary" % ast.unparse(x), st)
+                continue
             env = Env()
-            key, idx = _sym(dc.key, env), _sym(v.slice, env)
-            ctx.check(idx - key == Poly.atom("idx"), R, f, "entry {%s: %s}" % (ast.unparse(dc.key), ast.unparse(v)), "the entry under key -k is the value k trials before the current one",
-                      "window entry {%s: %s}: key %s is filled from index %s (expected idx + key)" % (ast.unparse(dc.key), ast.unparse(v), key, idx), dc)
-            ctx.check(ast.unparse(v.value.slice) == "f.name" and ast.unparse(dc.generators[0].iter) in ("range(self.width)", "range(0, self.width)") and not dc.generators[0].ifs, R, f,
-                      "width (comprehension)", "width entries per window, read from the window's own factor", "the window comprehension ranges over `%s` of `%s`" % (
-                          ast.unparse(dc.generators[0].iter), ast.unparse(v.value.slice)), dc)
-    ctx.require(n == 2, "get_window_val: expected two window-filling statements, found %d" % n)
+            key, idx = _sym(keyn, env), _sym(x.slice, env)
+            ctx.check(idx - key == Poly.atom("idx"), R, f, "entry %s -> %s" % (ast.unparse(keyn), ast.unparse(x)),
+                      "the entry under key -k is the value k trials before the current one", "window entry: key %s is filled from index %s (expected idx + key)" % (key, idx), st)
+            ctx.check(rng in ("range(self.width)", "range(0, self.width)"), R, f, "width entries (%s)" % rng, "width entries per window", "the window ranges over `%s`" % rng, st)
+            # a position before the first trial must not be read (a negative index wraps around to the end of the sequence)
+            conds = F.conds(st)
+            guarded = ("(0 <= %s)" % idx) in conds or "(-1 + self.width <= idx)" in conds
+            if dcs and not guarded:
+                guarded = any(str(F.at(st, c)) in ("(0 <= %s)" % idx,) for c in gens[0].ifs) if len(gens) == 1 else False
+            ctx.check(guarded, R, f, "non-negative index %s" % idx, "the read at %s is reached only when that position exists (idx - k >= 0, or idx >= width - 1)" % idx,
+                      "get_window_val reads dependent_dict[f.name][%s] on a path where %s can be negative (path condition %s): early trials take values from the end of the sequence instead of NaN" % (
+                          idx, idx, conds), st)
+    ctx.require(n >= 1, "get_window_val: no read of the window's factor found")
     t = F.tests()
     ctx.check(t[:2] == ["(idx < self.start)", "(((idx - self.start)%(self.stride) != 0) and (1 < self.stride))"], R, f, "undefined / skipped",
               "NaN before the window start and where the stride skips the trial", "applicability tests are %s" % t[:2])
